@@ -10,6 +10,7 @@ import GoZero.C07.ProofsSFX
 import GoZero.C07.ProofsLCX
 import GoZero.C07.ProofsRM
 import GoZero.C07.ProofsRMX
+import GoZero.C07.ProofsRME
 set_option linter.unusedSimpArgs false
 namespace GoZero.C07
 
@@ -1057,5 +1058,63 @@ theorem rm_injected_is_handed_out {s s1 s2 : RM.St} {k : Key} {v : Val} (h : RM.
   refine ⟨hn, by rw [hin, hs1.2], fun r hr hrk hrv => ?_⟩
   have := (rm_inject_same_instance h2 r hr hrv).2
   rw [this, hrk, hin, hs1.2]
+
+
+/-! ### Round 5c: expiry / eviction / Del (`RM.evict`, `RM.ReachE`: calls and evictions in any order)
+
+An entry may disappear at any time the map's lock is free — `collection.Cache.Del`, the timing wheel's expiry, lru
+eviction, `cacheNode.Del`, a redis TTL.  The FLIGHT part of the invariant (`RM.InvF`, ProofsRME.lean) survives it, so the
+flight group never becomes a second cache: **never a retained result** — whatever is evicted between a flight's end
+and the next call, a caller that does not find the entry in the map is handed the result of an execution of a flight
+that is registered (its leader inside it) while the caller is inside its own call; an entry of the flight group exists
+only while its leader is inside that very flight.  NOT re-established under eviction (stated per epoch only in the ghost
+field `ncreate`, which `evict` resets): the map part — "at most one successful load per key and epoch" and "everyone
+gets the epoch's instance" (a caller that read the entry just before it was evicted legitimately returns the old
+instance). -/
+
+/-- with evictions, too: what a call returns from a flight is what the single execution of that flight's closure
+returned, and that flight was for the caller's key. -/
+theorem rm_evict_result_is_execution {s : RM.St} (h : RM.ReachE s) (r : RRet) (hr : r ∈ s.rets) (hd : r.direct = false) :
+    r.exec < s.next ∧ s.fnres r.exec = some r.val ∧ s.ekey r.exec = r.key :=
+  (RM.invF_reachE h).rets r hr hd
+
+/-- … the flight group holds an entry only while its leader is inside that very flight (so a flight that has ended can
+not be joined: the next caller registers a flight of its own and runs the closure — lookup, and on a miss the loader —
+again), … -/
+theorem rm_evict_cleanup {s : RM.St} (h : RM.ReachE s) (k : Key) (c : CallId) (hc : s.calls k = some c) :
+    c < s.next ∧ s.ekey c = k ∧ (s.pc (s.leader c)).inFlight = true ∧ s.reg (s.leader c) = c :=
+  (RM.invF_reachE h).calls k c hc
+
+/-- … a joiner only ever waits for / reads a flight that was published for its own key, … -/
+theorem rm_evict_joins_own_key {s : RM.St} (h : RM.ReachE s) (u : Tid) (hu : (s.pc u).waits = true) :
+    s.ekey (s.reg u) = s.key u ∧ RM.published s (s.reg u) :=
+  ⟨((RM.invF_reachE h).waits u hu).2.1, ((RM.invF_reachE h).waits u hu).2.2⟩
+
+/-- … and when no call is in progress the flight group is empty, whatever was loaded or evicted before. -/
+theorem rm_evict_quiescent_clean {s : RM.St} (h : RM.ReachE s) (hq : ∀ t, s.pc t = .idle) (k : Key) : s.calls k = none := by
+  cases hc : s.calls k with
+  | none => rfl
+  | some c =>
+    have := (rm_evict_cleanup h k c hc).2.2.1
+    rw [hq] at this
+    simp [RM.PC.inFlight] at this
+
+/-- an eviction starts a new epoch of the key: nothing stored, no load counted. -/
+theorem rm_evict_new_epoch {s s' : RM.St} {k : Key} (hs : RM.evict s k = some s') :
+    s'.res k = none ∧ s'.ncreate k = 0 ∧ s'.calls = s.calls ∧ s'.cval = s.cval := by
+  unfold RM.evict at hs
+  split at hs
+  · simp at hs; subst hs; simp [upd]
+  · simp at hs
+
+/-- non-vacuity (`cacheNode.doTake` / `Cache.Take` alike): goroutine 0 loads 9 for key 2; the entry is evicted; goroutine
+1's call — started after the first flight ended — finds nothing retained, runs the loader AGAIN (it returns 11) and is
+handed 11, not 9. -/
+def evictDemo1 : List (Tid × Nat) := [(0,2)] ++ List.replicate 11 (0,0) ++ [(0,9)] ++ List.replicate 9 (0,0)
+def evictDemo2 : List (Tid × Nat) := [(1,2)] ++ List.replicate 11 (1,0) ++ [(1,11)] ++ List.replicate 9 (1,0)
+
+example : (((RM.run (RM.init .doTake) evictDemo1).bind fun s => RM.evict s 2).bind fun s => RM.run s evictDemo2).map
+    (fun s => (s.rets.map fun r => (r.tid, r.key, r.val), s.res 2, s.ncreate 2, (s.calls 2).isNone))
+    = some ([(1, 2, 11), (0, 2, 9)], some 11, 1, true) := by decide
 
 end GoZero.C07
